@@ -193,6 +193,7 @@ impl<'p> Exec<'p> {
             leaf_batches: Default::default(),
             cut_batches: Default::default(),
             last_ordinal: Default::default(),
+            heartbeat: Default::default(),
         });
         let n = plan.cfg.indexes.len();
         let sys = crate::interpose::activate(
@@ -246,6 +247,7 @@ impl<'p> Exec<'p> {
             leaf_batches: Default::default(),
             cut_batches: Default::default(),
             last_ordinal: Default::default(),
+            heartbeat: Default::default(),
         });
         let n = plan.cfg.indexes.len();
         let mut ex = Exec {
@@ -414,6 +416,7 @@ impl<'p> Exec<'p> {
     }
 
     pub fn dump_in(&mut self, txn: &RoTxn) -> Dump {
+        self.ctx.beat();
         self.out.stats.dumps += 1;
         let mut d = Vec::new();
         for r in self.db().iter(txn).unwrap() {
@@ -896,6 +899,7 @@ impl<'p> Exec<'p> {
 
     /// C05 for one id, through the writer API.
     fn check_item(&mut self, ix: usize, id: u32) -> R<()> {
+        self.ctx.beat();
         let im = self.world.indexes[ix].clone();
         let db = self.db();
         let wrc = self.writer_rc(ix);
@@ -931,6 +935,7 @@ impl<'p> Exec<'p> {
 
     /// C05 over the whole index: iteration order, every vector, through writer and (if it opens) reader.
     fn check_store_full(&mut self, ix: usize) -> R<()> {
+        self.ctx.beat();
         let im = self.world.indexes[ix].clone();
         let db = self.db();
         let wrc = self.writer_rc(ix);
@@ -1328,6 +1333,7 @@ impl<'p> Exec<'p> {
         dec: &BTreeMap<u16, DecodedIndex>,
         fresh_build: bool,
     ) -> R<()> {
+        self.ctx.beat();
         let im = self.world.indexes[ix].clone();
         if im.state != Staleness::Built {
             return Ok(());
